@@ -121,6 +121,10 @@ func (hvs *HeightVoteSet) AddVote(vote *types.Vote, peerKey string) (added bool,
 	if !types.IsVoteTypeValid(vote.Type) {
 		return
 	}
+	if vote.Round < 0 {
+		// no round is negative: such a vote is invalid whoever signed it (it used to open a catch-up round)
+		return false, types.ErrVoteUnexpectedStep
+	}
 	voteSet := hvs.getVoteSet(vote.Round, vote.Type)
 	if voteSet == nil {
 		if rndz := hvs.peerCatchupRounds[peerKey]; len(rndz) < 2 {
